@@ -173,6 +173,8 @@ structure DSt where
   knownPeers : List Nat := []
   trk : TrkSt := {}
   startWhileStopping : Bool := false
+  /-- a verify command was given and the implementation has not been seen Stopped since -/
+  verifyPending : Bool := false
   parked : Parked := none
 
 def renderObs (s : St) (verdict : String) (outs : List Out) (impl : List (String × String))
@@ -415,13 +417,19 @@ def stepDriver (d : DSt) (op implObs : String) : DSt × String × List String :=
       -- C04: a stop reaches Stopped within the tracker stop timeout; a start is never silently dropped
       let implWorkers := commaList (((impl.find? fun (k, _) => k = "workers").map (·.2)).getD "-")
       let implSt := ((impl.find? fun (k, _) => k = "st").map (·.2)).getD ""
-      let sws := if toks.headD "" = "start" && s.stopAnn then true
+      -- (a start given while a verification request is pending is absorbed by the verification run, which ends
+      -- Stopped as the property demands of a verification request: not counted as dropped)
+      let sws := if toks.headD "" = "start" && s.stopAnn && !s.doVerify then true
                  else if toks.headD "" = "stop" || toks.headD "" = "verify" then false else d.startWhileStopping
+      -- a verification request ends with the torrent stopped: between the request and the first Stopped
+      -- observation the torrent is never downloading or seeding
+      let vp := (d.verifyPending || toks.headD "" = "verify") && implSt ≠ "Stopped"
       let c04trk :=
         (if toks.headD "" = "waitstop" && implWorkers.contains "stopann" then ["C04 stop-does-not-reach-stopped-within-timeout"] else []) ++
-        (if toks.headD "" = "waitstop" && sws && implSt = "Stopped" then ["C04 start-dropped-while-stopping"] else [])
+        (if toks.headD "" = "waitstop" && sws && implSt = "Stopped" && st2.status ≠ .stopped then ["C04 start-dropped-while-stopping"] else []) ++
+        (if vp && (implSt = "Downloading" || implSt = "Seeding") then [s!"C04 verification-request-did-not-end-stopped st={implSt}"] else [])
       let sws := if toks.headD "" = "waitstop" then false else sws
-      ({ s := some st2, parked := parked, implDials := implDials, knownPeers := known, trk := trk, startWhileStopping := sws },
+      ({ s := some st2, parked := parked, implDials := implDials, knownPeers := known, trk := trk, startWhileStopping := sws, verifyPending := vp },
         renderObs st2 r.verdict outs1 impl dlTok trk.ntrk anns, viol ++ annViol ++ c04trk)
 
 def mkSuite (name : String) : Suite where
